@@ -1181,10 +1181,42 @@ func (w *World) implicitContracts() string {
 	var b strings.Builder
 	astFiles := map[string]bool{"ast.go": true, "utils.go": true, "sanitize.go": true}
 	for _, fn := range w.allFuncs {
-		if fn.Parent() != nil || fn.Synthetic != "" || len(fn.Blocks) == 0 {
+		if fn.Synthetic != "" || len(fn.Blocks) == 0 {
 			continue
 		}
 		name := w.funcName(fn)
+		if fn.Parent() != nil {
+			// function literals of the AST files: their bodies run inside the generic walkers and
+			// rewriters (which call them with non-nil nodes only); swept on their own, captured
+			// variables arbitrary
+			file := filepath.Base(w.fset.Position(fn.Pos()).Filename)
+			if file == "parse_tree.go" || strings.HasPrefix(file, "verif_") || strings.HasSuffix(file, "_test.go") {
+				continue // statement handlers: covered by the function-type contract
+			}
+			if _, ok := w.contracts.Funcs[name]; ok {
+				continue
+			}
+			w.implicit = append(w.implicit, name)
+			pr := "C04"
+			if astFiles[file] {
+				pr = "C13"
+			}
+			fmt.Fprintf(&b, "//@ func %s\n//@   props %s\n//@   safety %s\n//@   astparams\n", name, pr, pr)
+			for _, p := range fn.Params {
+				if _, isIface := p.Type().Underlying().(*types.Interface); isIface && p.Name() != "_" && p.Name() != "" {
+					fmt.Fprintf(&b, "//@   requires %s != nil && (notnil(%s) || istype(%s, *Target))\n", p.Name(), p.Name(), p.Name())
+				}
+			}
+			// captured pointer variables hold what the enclosing function put there: a non-nil node
+			for _, fv := range fn.FreeVars {
+				if pt, ok := fv.Type().(*types.Pointer); ok {
+					if _, isPtr := pt.Elem().Underlying().(*types.Pointer); isPtr {
+						fmt.Fprintf(&b, "//@   requires %s != nil\n", fv.Name())
+					}
+				}
+			}
+			continue
+		}
 		if strings.HasPrefix(name, "init") || strings.HasPrefix(name, "spec_") {
 			continue
 		}
@@ -1455,4 +1487,17 @@ func modifiesAllowsOld(fc *FuncContract, callee *ssa.Function, n string) bool {
 		}
 	}
 	return false
+}
+
+// namedPtrTag: the interface type tag of *T for a named struct T of the package (0 if unknown).
+func (w *World) namedPtrTag(name string) int {
+	o := w.pkg.Pkg.Scope().Lookup(name)
+	if o == nil {
+		return 0
+	}
+	tn, ok := o.(*types.TypeName)
+	if !ok {
+		return 0
+	}
+	return w.typeTag(types.NewPointer(tn.Type()))
 }
